@@ -524,7 +524,7 @@ func e1Execute(sc *e1Scenario, prop string, res *core.Result) error {
 	}
 	defer func() { robust.MessageOffset = 0; *useProtobuf = true; *canaryCompactionStart = 0 }()
 
-	r := &e1Run{sc: sc, res: res, tr: &core.Trace{}, root: root, entryAt: map[uint64]*logEntry{}, canon: map[uint64][]outMsg{}, canonRet: map[uint64]string{}, canonNode: map[uint64]int{}, cmid: map[uint64]uint64{}, prop: prop, offset: robust.MessageOffset}
+	r := &e1Run{sc: sc, res: res, tr: &core.Trace{Keep: os.Getenv("VERIF_TRACE") != ""}, root: root, entryAt: map[uint64]*logEntry{}, canon: map[uint64][]outMsg{}, canonRet: map[uint64]string{}, canonNode: map[uint64]int{}, cmid: map[uint64]uint64{}, prop: prop, offset: robust.MessageOffset}
 	r.model = newObsModel(r)
 	nn := sc.Nodes
 	if nn < 2 {
@@ -584,6 +584,11 @@ func e1Execute(sc *e1Scenario, prop string, res *core.Result) error {
 	}
 	if os.Getenv("VERIF_MAPSEAM") == "1" {
 		res.Add("mapseam_runs", 1)
+	}
+	if os.Getenv("VERIF_TRACE") != "" {
+		for _, l := range r.tr.Lines {
+			fmt.Fprintln(os.Stderr, "TRACE", l)
+		}
 	}
 	res.SimMillis = time.Since(t0).Milliseconds()
 	res.Steps = len(sc.Steps)
@@ -1030,6 +1035,7 @@ func (r *e1Run) restart(st e1Step) {
 		}
 		if err != nil {
 			r.violate("C02", "restore-error", "restore-error", fmt.Sprintf("node %d: Restore of its newest snapshot (index %d) failed: %v", n.idx, idx, err))
+			r.stopped = true // a node whose Restore failed half-way has no defined state: the run ends here (reported under C02)
 			return
 		}
 		r.res.Add("restores", 1)
@@ -1076,6 +1082,7 @@ func (r *e1Run) selfRestore(st e1Step) {
 	}
 	if err != nil {
 		r.violate("C02", "restore-error", "restore-error", fmt.Sprintf("node %d: Restore of its own snapshot (index %d) failed: %v", n.idx, idx, err))
+		r.stopped = true // a node whose Restore failed half-way has no defined state: the run ends here (reported under C02)
 		return
 	}
 	n.restored = true
@@ -1116,6 +1123,7 @@ func (r *e1Run) install(st e1Step) {
 	}
 	if err != nil {
 		r.violate("C02", "restore-error", "restore-error", fmt.Sprintf("node %d: Restore of node %d's snapshot (index %d) failed: %v", n.idx, from.idx, idx, err))
+		r.stopped = true // a node whose Restore failed half-way has no defined state: the run ends here (reported under C02)
 		return
 	}
 	r.res.Add("restores", 1)
